@@ -602,10 +602,17 @@ fn run_seq(ctl: &Arc<Ctl>, c: &Arc<Content>, cap: u64, rng: &mut impl Rng, nops:
             // refill after the restart: some of the items that have a file in the directory are put again and read
             if rng.gen_bool(0.5) {
                 let (files, _, _) = c.listing(dir.path());
-                for f in files.iter().filter(|_| rng.gen_bool(0.5)).take(3) {
+                let picked: Vec<&Value> = files.iter().filter(|_| rng.gen_bool(0.5)).take(3).collect();
+                for f in picked {
                     let k = c.names.iter().position(|n| n == f[0].as_str().unwrap()).unwrap();
                     let (s, e) = (f[1].as_u64().unwrap() as u32, f[2].as_u64().unwrap() as u32);
-                    do_op(c, &cache, &Op { kind: "put".into(), k, s, e });
+                    // the item itself, or only a leading / trailing part of it (validated against the covering item)
+                    let (ps, pe) = match rng.gen_range(0..3) {
+                        1 if e - s > 1 => (s, rng.gen_range(s + 1..e)),
+                        2 if e - s > 1 => (rng.gen_range(s + 1..e), e),
+                        _ => (s, e),
+                    };
+                    do_op(c, &cache, &Op { kind: "put".into(), k, s: ps, e: pe });
                     do_op(c, &cache, &Op { kind: "get".into(), k, s, e });
                 }
             }
